@@ -16,6 +16,7 @@ int run_script(std::size_t block_size)
     std::vector<live_t> live;
     unsigned next_pat = 1;
     iteration_allocator<N, up_alloc>* alloc = nullptr;
+    std::vector<iteration_allocator<N, up_alloc>*> graveyard;
     void* place = U.place(sizeof(iteration_allocator<N, up_alloc>));
     try { alloc = new (place) iteration_allocator<N, up_alloc>(block_size); }
     catch (...) { std::printf("init %zu %zu = throw %s |%s\n", N, block_size, classify_current(), U.take().c_str()); return 0; }
@@ -93,12 +94,27 @@ int run_script(std::size_t block_size)
             std::printf("\n");
         }
         else if (op == "v") verify(false);
+        else if (op == "mv")
+        {   // move construction: the new object owns the block, the old one is inert
+            auto* n = new (U.place(sizeof(*alloc))) iteration_allocator<N, up_alloc>(std::move(*alloc));
+            graveyard.push_back(alloc); alloc = n;
+            std::printf("mv = moved |%s\n", U.take().c_str());
+        }
+        else if (op == "ma")
+        {   // move assignment onto a live target: the target's own block must go back upstream
+            auto* n = new (U.place(sizeof(*alloc))) iteration_allocator<N, up_alloc>(block_size);
+            std::string ev0 = U.take();
+            *n = std::move(*alloc);
+            graveyard.push_back(alloc); alloc = n;
+            std::printf("ma = assigned |%s ;%s\n", ev0.c_str(), U.take().c_str());
+        }
         std::fflush(stdout);
     }
     verify(false);
     alloc->~iteration_allocator();
+    for (auto g : graveyard) g->~iteration_allocator();
     std::printf("destroy |%s\n", U.take().c_str());
-    std::printf("end live_blocks=%zu errors=%ld\n", U.live_count(), U.errors);
+    std::printf("end live_blocks=%zu errors=%ld stale_writes=%zu\n", U.live_count(), U.errors, U.stale_writes());
     return 0;
 }
 
